@@ -1,6 +1,28 @@
-import HqModel.Lemmas.StreamCodec
+import HqModel.Lemmas.StreamMain
 /-!
 # C19 — streamed output reads back complete, in order, last run only (model M8, byte level)
+
+Model: `HqModel/Stream/{Codec,Header,Writer,Reader}.lean` (writer = `worker/streamer.rs`, reader =
+`stream/reader/outputlog.rs`, codec = bincode 1.3.3 varint as configured by `StreamSerializationConfig`);
+vocabulary of the statements: `HqModel/Stream/Spec.lean`.
+
+A *directory* is a list of `FileSpec`s — for each `stream_writer` (one per worker and stream directory) the
+server uid, the worker id and the queue of `(header, data)` chunks in queue order — listed in the order in
+which the reader happens to meet the files. The theorems hold for **every** such list: any number of tasks,
+instances, chunks, any chunk sizes and contents, any interleaving of the chunks of different tasks inside a
+file, any number of files, any listing order. Hypotheses (`DirOK`): header fields are in the range of their
+Rust types, `size = data.len()` (`send_data`), channels are 0/1, all files carry the same ASCII server uid,
+and — the hypothesis that ties C19 to C06 —
+
+* inside one file the chunks of two instances of the same task are not interleaved (`NoReturn`), and
+* instance ids of one task are distinct across files (`DirOK.distinct`).
+
+Without them the reader merges or splits instances (it pushes a new `InstanceInfo` whenever the instance id
+differs from the *last* one of the task); that behaviour is modelled and compared with the real code by the
+correspondence harness, but it is not what C19 claims.
+
+Not proved here (trusted, exercised by the harness): the per-directory queue is FIFO and `BufWriter` +
+`flush` write exactly `fileBytes`.
 -/
 namespace HqModel.C19
 open HqModel.Stream
@@ -25,5 +47,151 @@ theorem hdr_roundtrip (h : ChunkHeader) (v : h.Valid) (rest : Bytes) :
 theorem hdr_prefix_free (h : ChunkHeader) (v : h.Valid) (k : Nat) (hk : k < (encHdr h).length) :
     decHdr ((encHdr h).take k) = .eof :=
   decHdr_take_encHdr v k hk
+
+/-- The chunk scanner on **any** prefix of a file body written by the writer: it sees exactly the chunks whose
+header is complete, at the right positions, and ends quietly (no decode error), whatever the offset. -/
+theorem scanner_any_prefix (cs : List Chunk) (hv : ∀ c ∈ cs, c.hdr.Valid) (hw : ∀ c ∈ cs, c.WF) (p k : Nat) :
+    parseChunks p ((chunksBytes cs).take k) = (recsOf p (cs.take (nHdr k cs)), false) :=
+  parseChunks_take cs hv hw p k
+
+/-- **Read-back.** For every directory satisfying the hypotheses, `OutputLog::open` (with no uid filter or
+the right one; also `create_index` on the explicit listing) succeeds, and for every task `t` that wrote
+anything, with `m` its maximal instance id:
+
+* `cat t stdout` / `cat t stderr` = the concatenation, in write order, of the data of all chunks that
+  instance `m` of `t` sent on that channel — nothing of any other instance or task;
+* `finished` ⇔ an end marker (chunk of size 0) of instance `m` was written;
+* the superseded instances are exactly the other instance ids of `t`, each once, in increasing order. -/
+theorem c19_readback (uid : Bytes) (dir : List FileSpec) (ok : DirOK uid dir) (hne : dir ≠ [])
+    (filter : Option Bytes) (hf : filter = none ∨ filter = some uid) :
+    ∃ log, openDir (dir.map fileBytes) filter = .ok log ∧ openPaths (dir.map fileBytes) = .ok log ∧
+      ∀ (t : Key) (m : Nat), m ∈ instIds dir t → (∀ i ∈ instIds dir t, i ≤ m) →
+        log.cat t 0 = .ok (written dir t m 0) ∧ log.cat t 1 = .ok (written dir t m 1) ∧
+        log.finished t = some (endMarked dir t m) ∧
+        ((log.superseded t).map (·.inst)).Nodup ∧
+        (∀ i, i ∈ (log.superseded t).map (·.inst) ↔ (i ∈ instIds dir t ∧ i ≠ m)) ∧
+        (log.superseded t).Pairwise (fun a b => a.inst ≤ b.inst) := by
+  -- the uncut directory is the directory cut at the file lengths
+  let cdir : List (FileSpec × Nat) := dir.map fun f => (f, (fileBytes f).length)
+  have hfst : cdir.map (·.1) = dir := by simp [cdir, List.map_map, Function.comp_def]
+  have hbytes : cdir.map cutBytes = dir.map fileBytes := by
+    simp only [cdir, List.map_map]
+    apply List.map_congr_left
+    intro f _
+    exact cutBytes_full f
+  have hc : CutOK uid cdir := by
+    refine ⟨by rw [hfst]; exact ok, ?_⟩
+    intro fk hfk
+    obtain ⟨f, _, rfl⟩ := List.mem_map.mp hfk
+    simp only [fileBytes_length]; omega
+  have hcne : cdir ≠ [] := by
+    intro h; apply hne; rw [← hfst, h]; rfl
+  refine ⟨⟨cdir.map cutBytes, (foldRecs Index.empty (viewFR 0 (viewOf cdir))).sorted⟩, ?_, ?_, ?_⟩
+  · rw [← hbytes]; exact openDir_cut hc hcne filter hf
+  · rw [← hbytes]; exact openPaths_cut hc
+  · intro t m hm hmax
+    have hview : (viewOf cdir).flatMap (fun pc => instSeq t pc.2) = instIds dir t := by
+      simp only [viewOf, cdir, List.map_map, List.flatMap_map, instIds, Function.comp_def, kept_full]
+    obtain ⟨h0, h1, hfin, init, hget, hnd, hmem, hpw⟩ :=
+      torn_task hc t m (by rw [hfst]; exact hm) (by rw [hfst]; exact hmax)
+        (by
+          intro fk hfk
+          obtain ⟨f, _, rfl⟩ := List.mem_map.mp hfk
+          exact keeps_full f t m)
+        _ rfl
+    rw [hfst] at h0 h1 hfin
+    rw [hview] at hmem
+    have hsup : Log.superseded ⟨cdir.map cutBytes, (foldRecs Index.empty (viewFR 0 (viewOf cdir))).sorted⟩ t = init := by
+      show ((foldRecs Index.empty (viewFR 0 (viewOf cdir))).sorted.get t).dropLast = init
+      have hget' : (foldRecs Index.empty (viewFR 0 (viewOf cdir))).sorted.get t = init ++ [_] := hget
+      rw [hget', List.dropLast_concat]
+    rw [hsup]
+    exact ⟨h0, h1, hfin, hnd, hmem, hpw⟩
+
+/-- **Torn files.** Every file of the directory may have lost an arbitrary tail (`fk.2` = number of bytes that
+survived; the theorem quantifies over *every* byte offset), as long as the file headers survived. If all
+chunks of the maximal instance `m` of task `t` lie inside the surviving part of their file
+(`FileSpec.Keeps`: the cut is at or behind the last byte of its last chunk — its end marker if it has one),
+then `cat` and `finished` of `t` are exactly what they are on the undamaged directory (`written`,
+`endMarked` refer to the *whole* schedule): torn tails of other executions are skipped — a torn header stops
+the scan of that file quietly, a chunk with short data belongs to an execution whose end marker is missing. -/
+theorem c19_torn (uid : Bytes) (dir : List (FileSpec × Nat)) (ok : DirOK uid (dir.map (·.1)))
+    (hdr : ∀ fk ∈ dir, (encFileHeader fk.1.uid fk.1.worker).length ≤ fk.2) (hne : dir ≠ [])
+    (filter : Option Bytes) (hf : filter = none ∨ filter = some uid)
+    (t : Key) (m : Nat) (hm : m ∈ instIds (dir.map (·.1)) t) (hmax : ∀ i ∈ instIds (dir.map (·.1)) t, i ≤ m)
+    (hkeep : ∀ fk ∈ dir, fk.1.Keeps t m fk.2) :
+    ∃ log, openDir (dir.map fun fk => (fileBytes fk.1).take fk.2) filter = .ok log ∧
+      openPaths (dir.map fun fk => (fileBytes fk.1).take fk.2) = .ok log ∧
+      log.cat t 0 = .ok (written (dir.map (·.1)) t m 0) ∧ log.cat t 1 = .ok (written (dir.map (·.1)) t m 1) ∧
+      log.finished t = some (endMarked (dir.map (·.1)) t m) := by
+  have hc : CutOK uid dir := ⟨ok, hdr⟩
+  obtain ⟨h0, h1, hfin, -⟩ := torn_task hc t m hm hmax hkeep _ rfl
+  exact ⟨⟨dir.map cutBytes, (foldRecs Index.empty (viewFR 0 (viewOf dir))).sorted⟩,
+    openDir_cut hc hne filter hf, openPaths_cut hc, h0, h1, hfin⟩
+
+/-! ## the hypotheses are satisfiable; the conclusions are not vacuous -/
+
+/-- task 1.0: run 1 on worker 2 dies after two chunks, run 2 on worker 3 completes; task 1.1 interleaved -/
+def exDir : List FileSpec :=
+  [ ⟨[85], 2, [⟨⟨5, 1, 0, 1, 0, 2⟩, [10, 11]⟩, ⟨⟨6, 1, 1, 7, 0, 1⟩, [99]⟩, ⟨⟨7, 1, 0, 1, 1, 1⟩, [12]⟩]⟩,
+    ⟨[85], 3, [⟨⟨8, 1, 0, 2, 0, 1⟩, [20]⟩, ⟨⟨9, 1, 1, 8, 0, 0⟩, []⟩, ⟨⟨9, 1, 0, 2, 0, 2⟩, [21, 22]⟩,
+               ⟨⟨9, 1, 0, 2, 0, 0⟩, []⟩] ⟩ ]
+
+theorem exDir_ok : DirOK [85] exDir := by
+  have other : ∀ t : Key, t ≠ (1, 0) → t ≠ (1, 1) → ∀ f ∈ exDir, instSeq t f.chunks = [] := by
+    intro t h0 h1 f hf
+    have h0' : ¬ ((1, 0) : Key) = t := fun h => h0 h.symm
+    have h1' : ¬ ((1, 1) : Key) = t := fun h => h1 h.symm
+    simp only [exDir, List.mem_cons, List.not_mem_nil, or_false] at hf
+    rcases hf with rfl | rfl <;> simp [instSeq, Chunk.key, List.filter_cons, h0', h1']
+  refine ⟨by decide, by decide, ?_, ?_⟩
+  · intro f hf
+    have hf' := hf
+    simp only [exDir, List.mem_cons, List.not_mem_nil, or_false] at hf'
+    have nr : ∀ t, NoReturn (instSeq t f.chunks) := by
+      intro t
+      by_cases h0 : t = (1, 0)
+      · subst h0; rcases hf' with rfl | rfl <;> decide
+      · by_cases h1 : t = (1, 1)
+        · subst h1; rcases hf' with rfl | rfl <;> decide
+        · rw [other t h0 h1 f hf]; trivial
+    rcases hf' with rfl | rfl
+    · exact ⟨rfl, by decide, by decide, by decide, by decide, by decide, nr⟩
+    · exact ⟨rfl, by decide, by decide, by decide, by decide, by decide, nr⟩
+  · intro t
+    by_cases h0 : t = (1, 0)
+    · subst h0; decide
+    · by_cases h1 : t = (1, 1)
+      · subst h1; decide
+      · have e0 := other t h0 h1
+        apply List.pairwise_of_forall_mem_list
+        intro a ha b _ i hi
+        rw [e0 a ha] at hi
+        simp at hi
+
+/-- on the example: task 1.0 reads back `20 21 22` (run 2 only), finished, run 1 superseded -/
+example : ∃ log, openDir (exDir.map fileBytes) none = .ok log ∧
+    log.cat (1, 0) 0 = .ok [20, 21, 22] ∧ log.cat (1, 0) 1 = .ok [] ∧ log.finished (1, 0) = some true ∧
+    (log.superseded (1, 0)).map (·.inst) = [1] := by
+  obtain ⟨log, ho, -, h⟩ := c19_readback [85] exDir exDir_ok (by decide) none (Or.inl rfl)
+  obtain ⟨h0, h1, hf, hnd, hmem, -⟩ := h (1, 0) 2 (by decide) (by decide)
+  refine ⟨log, ho, h0, h1, hf, ?_⟩
+  have e : instIds exDir (1, 0) = [1, 1, 2, 2, 2] := by decide
+  rw [e] at hmem
+  -- a duplicate-free list whose members are exactly {1}
+  generalize (log.superseded (1, 0)).map (·.inst) = l at hnd hmem
+  match l, hnd, hmem with
+  | [], _, hmem => exact absurd ((hmem 1).mpr (by decide)) (by simp)
+  | [a], _, hmem =>
+    have := (hmem a).mp (by simp)
+    simp only [List.mem_cons, List.not_mem_nil, or_false] at this
+    have : a = 1 := by omega
+    simp [this]
+  | a :: b :: r, hnd, hmem =>
+    have ha := (hmem a).mp (by simp)
+    have hb := (hmem b).mp (by simp)
+    simp only [List.mem_cons, List.not_mem_nil, or_false] at ha hb
+    have : a = b := by omega
+    simp [this] at hnd
 
 end HqModel.C19
